@@ -52,6 +52,57 @@ def tree_fingerprints(repo):
     return {"modules": out, "helpers": helpers, "transparent": transparent, "identifiers": sorted(_identifiers(trees))}
 
 
+_REF = None
+
+
+def reference():
+    global _REF
+    if _REF is None:
+        _REF = json.loads((DATA / "vgraph.json").read_text())
+    return _REF
+
+
+def module_fingerprints(repo, rel):
+    """E8 fingerprints of one module of the current tree (cached on the repo object)."""
+    cache = repo.__dict__.setdefault("_e8_modules", {})
+    if rel not in cache:
+        if "_e8_inl" not in repo.__dict__:
+            trees = {m.name: ast.parse(m.source) for m in repo.modules.values()}
+
+            def subclass_defines(mod, cls, name):
+                m = repo.by_name.get(mod)
+                c = m.classes.get(cls) if m else None
+                if c is None:
+                    return True
+                return any(name in sub.methods or name in sub.setters or name in sub.attrs for sub in repo.subclasses(c, strict=True))
+            repo.__dict__["_e8_trees"] = trees
+            repo.__dict__["_e8_inl"] = vgraph.inlinable_helpers(trees, subclass_defines)
+        m = repo.module(rel)
+        cache[rel] = vgraph.module_fingerprints(repo.__dict__["_e8_trees"][m.name], m.name, m.is_pkg, set(repo.by_name), repo.__dict__["_e8_inl"])
+    return cache[rel]
+
+
+def same_as_reference(chk, rule, rel, key, what):
+    """Rule instance: the function `key` of module `rel` is proven equal (E8) to its reference version.  Used for small
+    accessors and gates that have no independent oracle: any behavioural change of the function fires; renames, extracted
+    temporaries, early returns, helper extraction … do not (see vgraph.py)."""
+    from .model import AnalysisError
+    ref = reference()["modules"].get(rel, {}).get("funcs", {}).get(key)
+    if ref is None:
+        raise AnalysisError(f"no reference fingerprint for {rel}::{key}")
+    cur = module_fingerprints(chk.repo, rel)["funcs"].get(key)
+    if cur is None:
+        raise AnalysisError(f"anchor function {rel}::{key} not found")
+    ok = cur == ref
+    node = None
+    q = key.split(":")[0]
+    f = chk.repo.try_func(rel, q, setter=key.endswith(":setter"))
+    where = f"{rel}:{f.node.lineno}" if f is not None else rel
+    chk.inst(rule, f"{rel}::{key}::same-as-reference", ok, f"proven equal to the reference version ({what})" if ok else
+             f"no longer proven equal to the reference version — {what}", where)
+    return ok
+
+
 def compare(repo):
     """→ dict(equivalent=bool, unproven=[...], functions=n, textual=k).  `unproven` names every function (or module
     residue) that E8 could not prove equal to its reference version."""
